@@ -93,6 +93,33 @@ def sc_rel_vs_matrix(cx, cost):
     _compare_fits(cx, "rel-vs-matrix", fa, fb)
 
 
+def sc_relmatrix_vs_absmatrix(cx, cost, form):
+    """relative matrix source (covariance, or correlation matrix + relative uncertainties) == the explicit absolute
+    covariance matrix M_ij * y_i * y_j (signed references)"""
+    from props.fitlib import symm
+
+    fa, (x, y) = _xy(cx, cost)
+    fb, _ = _xy(cx, cost, data=(x, y))
+    if form == "cov":
+        m = symm(cx, "m", 2)
+        for i in range(2):
+            cx.assume(m[i][i] >= 0)
+        fa.add_matrix_error("y", [list(r) for r in m], "cov", name="e", relative=True)
+        M = [[m[i][j] * y[i] * y[j] for j in range(2)] for i in range(2)]
+    else:
+        c = cx.real("c")
+        cx.assume(c >= -1)
+        cx.assume(c <= 1)
+        e = cx.reals("e", 2)
+        for v in e:
+            cx.assume(v >= 0)
+        cm = [[1.0, c], [c, 1.0]]
+        fa.add_matrix_error("y", cm, "cor", name="e", err_val=list(e), relative=True)
+        M = [[cm[i][j] * e[i] * y[i] * e[j] * y[j] for j in range(2)] for i in range(2)]
+    fb.add_matrix_error("y", M, "cov", name="e")
+    _compare_fits(cx, "relmatrix-vs-absmatrix/" + form, fa, fb)
+
+
 def sc_cor_vs_cov(cx, cost, relative):
     fa, (x, y) = _xy(cx, cost)
     fb, _ = _xy(cx, cost, data=(x, y))
@@ -452,6 +479,8 @@ def scenarios(tier, seed):
         for axis in ("y", "x"):
             S.append(Scenario("rel-vs-abs/%s/%s" % (axis, cost), sc_rel_vs_abs, family="rel-vs-abs", params=dict(axis=axis, cost=cost)))
         S.append(Scenario("rel-vs-matrix/%s" % cost, sc_rel_vs_matrix, family="rel-vs-matrix", params=dict(cost=cost)))
+        for form in ("cov", "cor"):
+            S.append(Scenario("relmatrix-vs-absmatrix/%s/%s" % (form, cost), sc_relmatrix_vs_absmatrix, family="relmatrix-vs-absmatrix", params=dict(cost=cost, form=form)))
         for rel in (False, True):
             S.append(Scenario("cor-vs-cov/%s/rel-%s" % (cost, rel), sc_cor_vs_cov, family="cor-vs-cov", params=dict(cost=cost, relative=rel)))
         S.append(Scenario("simple-vs-matrix/%s" % cost, sc_simple_vs_matrix, family="simple-vs-matrix", params=dict(cost=cost)))
